@@ -615,6 +615,13 @@ pool("TypiClust", "TypiClust", lambda e: (P().TypiClust(cluster_algo_dict=dict(C
 pool("Badge", "Badge", lambda e: (P().Badge(missing_label=e.ml, random_state=0), {"clf": e.clf("pwc")}))
 pool("Badge/lr", "Badge", lambda e: (P().Badge(missing_label=e.ml, random_state=0), {"clf": e.clf("lr")}))
 pool("ProbCover", "ProbCover", lambda e: (P().ProbCover(cluster_algo_dict=dict(CL), missing_label=e.ml, random_state=0), {}))
+# index candidates that are a proper subset of the unlabeled samples: what a strategy infers from the *other* samples (number of
+# classes, clusters, labeled set) must not depend on how "missing" is written (seed R9C09)
+pool("ProbCover/cand-idx", "ProbCover", lambda e: (P().ProbCover(cluster_algo_dict=dict(CL), missing_label=e.ml, random_state=0), {}), cand="idx")
+pool("TypiClust/cand-idx", "TypiClust", lambda e: (P().TypiClust(cluster_algo_dict=dict(CL), k=3, missing_label=e.ml, random_state=0), {}), cand="idx")
+pool("CoreSet/cand-idx", "CoreSet", lambda e: (P().CoreSet(missing_label=e.ml, random_state=0), {}), cand="idx")
+pool("Badge/cand-idx", "Badge", lambda e: (P().Badge(missing_label=e.ml, random_state=0), {"clf": e.clf("pwc")}), cand="idx")
+pool("Clue/cand-idx", "Clue", lambda e: (P().Clue(cluster_algo_dict=dict(CL), missing_label=e.ml, random_state=0), {"clf": e.clf("pwc")}), cand="idx")
 pool("ProbCover/n_classes", "ProbCover", lambda e: (P().ProbCover(n_classes=e.K, cluster_algo_dict=dict(CL), missing_label=e.ml, random_state=0), {}))
 pool("ContrastiveAL", "ContrastiveAL", lambda e: (P().ContrastiveAL(nearest_neighbors_dict={"n_neighbors": 2}, missing_label=e.ml, random_state=0), {"clf": e.clf("pwc")}))
 pool("Falcun", "Falcun", lambda e: (P().Falcun(missing_label=e.ml, random_state=0), {"clf": e.clf("pwc")}))
